@@ -592,5 +592,7 @@ package main
 //@   atcall (*database/sql.Tx).Exec sets ghostSyncClearedProfiles bool (tx2 *sql.Tx, query string, args []any, res sql.Result, err2 error) :: true if tx2 == ghostSyncTx && err2 == nil && query == "DELETE FROM user_profile"
 //@   atcall (*database/sql.Tx).Exec sets ghostSyncClearedSigned bool (tx2 *sql.Tx, query string, args []any, res sql.Result, err2 error) :: true if tx2 == ghostSyncTx && err2 == nil && query == "DELETE FROM expiring_signed_user_data"
 //@   atcall (*database/sql.Tx).Prepare requires (tx2 *sql.Tx, query string) :: tx2 == ghostSyncTx && ghostSyncClearedProfiles && ghostSyncClearedSigned   #C15.inserts-in-the-transaction-after-clearing @C15
+//@   atcall (*database/sql.DB).Prepare requires (db *sql.DB, query string) :: false   #C15.no-statement-prepared-outside-the-transaction @C15
+//@   atcall (*database/sql.DB).Exec requires (db *sql.DB, query string, args []any) :: false   #C15.no-statement-executed-outside-the-transaction @C15
 //@   atcall (*database/sql.Tx).Commit requires (tx2 *sql.Tx) :: tx2 == ghostSyncTx && ghostSyncClearedProfiles && ghostSyncClearedSigned   #C15.commit-replaces-both-tables @C15
 //@ callers database/sql.DB).Exec only initializeSQLitetables, initDBPostgres  #C15.no-direct-exec-outside-schema-setup @C15
